@@ -93,19 +93,23 @@ func TestVerifRace(t *testing.T) {
 			for time.Now().Before(end) && atomic.LoadInt32(&stop) == 0 {
 				tr := fixgen.CreateTestRequest("id")
 				serve(tr, tr.Header())
-				hb := fixgen.CreateHeartbeat()
-				serve(hb, hb.Header())
 				rr := fixgen.CreateResendRequest(1, 2)
 				serve(rr, rr.Header())
+				rr0 := fixgen.CreateResendRequest(1, 0)
+				serve(rr0, rr0.Header())
+				hb := fixgen.CreateHeartbeat().SetTestReqID("1")
+				serve(hb, hb.Header())
 				time.Sleep(5 * time.Millisecond)
 			}
 		}
-		phase(600 * time.Millisecond)
-		// silence long enough for the silence timer (2s) to expire once: TestRequest, waiting state
+		phase(500 * time.Millisecond)
+		// silence long enough for the silence timer (2s) to expire: TestRequest, waiting state
 		time.Sleep(2300 * time.Millisecond)
-		phase(400 * time.Millisecond)
+		phase(100 * time.Millisecond) // the last message of a phase is a Heartbeat carrying a TestReqID
+		time.Sleep(2300 * time.Millisecond) // second expiry after an answered probe
+		phase(100 * time.Millisecond)
 	}()
-	time.Sleep(3600 * time.Millisecond)
+	time.Sleep(5700 * time.Millisecond)
 	_ = f.s.Stop()
 	lo := fixgen.CreateLogout()
 	setHdr(lo.Header(), peer, me, 9999)
